@@ -52,7 +52,19 @@ func buildScenarios(rows int, policies, seeds, modes []string, fits []int, full 
 			}
 		}
 	}()
+	only := map[int]bool{}
+	for _, f := range strings.Split(os.Getenv("VERIF_CFG_ONLY"), ",") { // investigation aid: restrict to these configuration rows
+		if v, err := strconv.Atoi(f); err == nil {
+			only[v] = true
+			if v >= rows {
+				rows = v + 1
+			}
+		}
+	}
 	for r := 0; r < rows; r++ {
+		if len(only) > 0 && !only[r] {
+			continue
+		}
 		for pi, p := range policies {
 			if full {
 				for fi, f := range fits {
